@@ -1275,4 +1275,201 @@ theorem reach_lookEq {svcs svcs' : AL Svc} (e : LookEq svcs svcs') {pol : Policy
   | step _ ed ih => exact .step ih (edge_lookEq e ed)
 
 
+/-! ## when the walk fails -/
+
+theorem Reach.mono {svcs : AL Svc} {pol : Policy} {roots roots' : List String} (sub : ∀ r ∈ roots, r ∈ roots')
+    {x : String} (h : Reach svcs pol roots x) : Reach svcs pol roots' x := by
+  induction h with
+  | root hr hk => exact .root (sub _ hr) hk
+  | step _ e ih => exact .step ih e
+
+theorem reach_of_reach_next {svcs : AL Svc} (nd : (keys svcs).Nodup) {pol : Policy} {n : String} {s : Svc}
+    (hs : lookup n svcs = some s) {ns : List String} {x : String}
+    (h : Reach svcs pol (keys (nextOf svcs pol n s)) x) : Reach svcs pol (n :: ns) x := by
+  induction h with
+  | root hr hk =>
+    exact .step (.root (by simp) (keys_of_lookup hs)) ((edge_iff_next nd hs).2 ⟨hr, hk⟩)
+  | step _ e ih => exact .step ih e
+
+theorem missing_of_fatal {svcs : AL Svc} {pol : Policy} {n : String} {s : Svc} (hs : lookup n svcs = some s)
+    (h : (keys (nextOf svcs pol n s)).any (missingFatal svcs (nextOf svcs pol n s)) = true) :
+    MissingRequired svcs pol n := by
+  rw [List.any_eq_true] at h
+  obtain ⟨k, hk, hf⟩ := h
+  unfold missingFatal at hf
+  simp only [Bool.and_eq_true, Bool.not_eq_true'] at hf
+  have hnk : k ∉ keys svcs := by
+    intro c
+    have : has k svcs = true := by unfold has; exact lookup_isSome.2 c
+    rw [this] at hf; exact absurd hf.1 (by simp)
+  cases pol with
+  | deps =>
+    simp only [nextOf] at hk hf
+    obtain ⟨d, hd⟩ := Option.isSome_iff_exists.1 (lookup_isSome.2 hk)
+    refine ⟨rfl, ?_⟩
+    rw [hs]
+    refine ⟨(k, d), mem_of_lookup hd, ?_, hnk⟩
+    have := hf.2
+    rw [hd] at this
+    exact this
+  | dependents =>
+    simp only [nextOf] at hk
+    obtain ⟨s', hm, _⟩ := mem_keys_dependents.1 hk
+    exact absurd (mem_keys_of_mem hm) hnk
+  | ignore => simp [nextOf] at hk
+
+theorem not_missing_of_not_fatal {svcs : AL Svc} {pol : Policy} {n : String} {s : Svc} (hs : lookup n svcs = some s)
+    (nds : (keys s.deps).Nodup)
+    (h : ¬(keys (nextOf svcs pol n s)).any (missingFatal svcs (nextOf svcs pol n s)) = true) :
+    ¬MissingRequired svcs pol n := by
+  rintro ⟨hp, hm⟩
+  subst hp
+  rw [hs] at hm
+  obtain ⟨kv, hkv, hreq, hnk⟩ := hm
+  apply h
+  rw [List.any_eq_true]
+  refine ⟨kv.1, mem_keys_of_mem hkv, ?_⟩
+  unfold missingFatal
+  have h1 : has kv.1 svcs = false := by
+    unfold has; cases hh : (lookup kv.1 svcs).isSome
+    · rfl
+    · exact absurd (lookup_isSome.1 hh) hnk
+  simp only [nextOf, h1, lookup_of_mem nds (show (kv.1, kv.2) ∈ s.deps from hkv), hreq]
+  rfl
+
+theorem loop_err {svcs : AL Svc} (nd : (keys svcs).Nodup) {pol : Policy}
+    {rec : List String → AL Dep → List String → Walk}
+    (hrec : ∀ ns d seen, ns ≠ [] → rec ns d seen = .noSuchService →
+      ns.any (missingFatal svcs d) = true ∨ ∃ x, Reach svcs pol ns x ∧ MissingRequired svcs pol x) :
+    ∀ ns seen, walkLoop rec svcs pol ns seen = .noSuchService →
+      ∃ x, Reach svcs pol ns x ∧ MissingRequired svcs pol x := by
+  intro ns
+  induction ns with
+  | nil => intro seen h; simp [walkLoop] at h
+  | cons n ns ih =>
+    intro seen h
+    have lift : (∃ x, Reach svcs pol ns x ∧ MissingRequired svcs pol x) →
+        ∃ x, Reach svcs pol (n :: ns) x ∧ MissingRequired svcs pol x :=
+      fun ⟨x, hx, hm⟩ => ⟨x, hx.mono (fun r hr => List.mem_cons_of_mem _ hr), hm⟩
+    unfold walkLoop at h
+    cases hs : lookup n svcs with
+    | none => simp only [hs] at h; exact lift (ih _ h)
+    | some s =>
+      simp only [hs] at h
+      by_cases hseen : n ∈ seen
+      · simp only [hseen, if_true] at h; exact lift (ih _ h)
+      · simp only [hseen, if_false] at h
+        by_cases hd : (nextOf svcs pol n s).isEmpty = true
+        · simp only [hd, if_true] at h; exact lift (ih _ h)
+        · simp only [hd, Bool.false_eq_true, if_false] at h
+          have hne : keys (nextOf svcs pol n s) ≠ [] := by
+            intro e
+            apply hd
+            cases hh : nextOf svcs pol n s with
+            | nil => rfl
+            | cons a b => rw [hh] at e; cases e
+          cases hr : rec (keys (nextOf svcs pol n s)) (nextOf svcs pol n s) (n :: seen) with
+          | ok seen2 => simp only [hr] at h; exact lift (ih _ h)
+          | outOfFuel => simp [hr] at h
+          | noSuchService =>
+            rcases hrec _ _ _ hne hr with a | ⟨x, hx, hm⟩
+            · exact ⟨n, .root (by simp) (keys_of_lookup hs), missing_of_fatal hs a⟩
+            · exact ⟨x, reach_of_reach_next nd hs hx, hm⟩
+
+theorem walk_err {svcs : AL Svc} (nd : (keys svcs).Nodup) (pol : Policy) :
+    ∀ fuel names parent seen, walk svcs pol fuel names parent seen = .noSuchService →
+      (if names.isEmpty then keys svcs else names).any (missingFatal svcs parent) = true ∨
+      ∃ x, Reach svcs pol (if names.isEmpty then keys svcs else names) x ∧ MissingRequired svcs pol x := by
+  intro fuel
+  induction fuel with
+  | zero => intro names parent seen h; simp [walk] at h
+  | succ f ih =>
+    intro names parent seen h
+    unfold walk at h
+    simp only [] at h
+    by_cases hf : (if names.isEmpty then keys svcs else names).any (missingFatal svcs parent) = true
+    · exact .inl hf
+    · rw [if_neg hf] at h
+      refine .inr (loop_err nd (fun ns d seen hne hr => ?_) _ _ h)
+      have := ih ns d seen hr
+      have e : ns.isEmpty = false := by cases ns <;> simp_all
+      simpa [e] using this
+
+theorem loop_ok_clean {svcs : AL Svc} (wf : ∀ kv ∈ svcs, (keys kv.2.deps).Nodup) {pol : Policy}
+    {rec : List String → AL Dep → List String → Walk}
+    (hrec : ∀ ns d seen r, ns ≠ [] → rec ns d seen = .ok r →
+      ¬ns.any (missingFatal svcs d) = true ∧ ∀ x ∈ r, x ∈ seen ∨ ¬MissingRequired svcs pol x) :
+    ∀ ns seen r, walkLoop rec svcs pol ns seen = .ok r → ∀ x ∈ r, x ∈ seen ∨ ¬MissingRequired svcs pol x := by
+  intro ns
+  induction ns with
+  | nil =>
+    intro seen r h x hx
+    simp only [walkLoop, Walk.ok.injEq] at h
+    subst h; exact .inl hx
+  | cons n ns ih =>
+    intro seen r h x hx
+    unfold walkLoop at h
+    cases hs : lookup n svcs with
+    | none => simp only [hs] at h; exact ih _ _ h x hx
+    | some s =>
+      simp only [hs] at h
+      have nds := wf (n, s) (mem_of_lookup hs)
+      by_cases hseen : n ∈ seen
+      · simp only [hseen, if_true] at h; exact ih _ _ h x hx
+      · simp only [hseen, if_false] at h
+        by_cases hd : (nextOf svcs pol n s).isEmpty = true
+        · simp only [hd, if_true] at h
+          rcases ih _ _ h x hx with a | a
+          · rcases List.mem_cons.1 a with e | e
+            · subst e
+              refine .inr (not_missing_of_not_fatal hs nds ?_)
+              rw [List.isEmpty_iff] at hd
+              simp [hd]
+            · exact .inl e
+          · exact .inr a
+        · simp only [hd, Bool.false_eq_true, if_false] at h
+          have hne : keys (nextOf svcs pol n s) ≠ [] := by
+            intro e
+            apply hd
+            cases hh : nextOf svcs pol n s with
+            | nil => rfl
+            | cons a b => rw [hh] at e; cases e
+          cases hr : rec (keys (nextOf svcs pol n s)) (nextOf svcs pol n s) (n :: seen) with
+          | noSuchService => simp [hr] at h
+          | outOfFuel => simp [hr] at h
+          | ok seen2 =>
+            simp only [hr] at h
+            have R := hrec _ _ _ _ hne hr
+            rcases ih _ _ h x hx with a | a
+            · rcases R.2 x a with b | b
+              · rcases List.mem_cons.1 b with e | e
+                · subst e; exact .inr (not_missing_of_not_fatal hs nds R.1)
+                · exact .inl e
+              · exact .inr b
+            · exact .inr a
+
+theorem walk_ok_clean {svcs : AL Svc} (wf : ∀ kv ∈ svcs, (keys kv.2.deps).Nodup) (pol : Policy) :
+    ∀ fuel names parent seen r, walk svcs pol fuel names parent seen = .ok r →
+      ¬(if names.isEmpty then keys svcs else names).any (missingFatal svcs parent) = true ∧
+      ∀ x ∈ r, x ∈ seen ∨ ¬MissingRequired svcs pol x := by
+  intro fuel
+  induction fuel with
+  | zero => intro names parent seen r h; simp [walk] at h
+  | succ f ih =>
+    intro names parent seen r h
+    unfold walk at h
+    simp only [] at h
+    by_cases hf : (if names.isEmpty then keys svcs else names).any (missingFatal svcs parent) = true
+    · rw [if_pos hf] at h; cases h
+    · rw [if_neg hf] at h
+      refine ⟨hf, loop_ok_clean wf (fun ns d seen r hne hr => ?_) _ _ _ h⟩
+      have := ih ns d seen r hr
+      have e : ns.isEmpty = false := by cases ns <;> simp_all
+      simpa [e] using this
+
+theorem missingFatal_top (svcs : AL Svc) (n : String) : missingFatal svcs [] n = true ↔ n ∉ keys svcs := by
+  unfold missingFatal has
+  simp only [lookup, Bool.and_true, Bool.not_eq_true', ← lookup_isSome]
+  cases (lookup n svcs).isSome <;> simp
+
 end CV.Sel
